@@ -594,7 +594,7 @@ pub fn run(ctx: &Ctx) -> ! {
     for ty in &types {
         let al = alphabet(ty);
         let a = al.len();
-        let space = if thorough { ColSpace::new(a, &[(a.min(8), 2), (a.min(5), 3)]) } else { ColSpace::new(a, &[(a.min(6), 2), (a.min(3), 3)]) };
+        let space = if thorough { ColSpace::new(a, &[(a.min(8), 2), (a.min(4), 3)]) } else { ColSpace::new(a, &[(a.min(6), 2), (a.min(3), 3)]) };
         support.insert(ty.name(), json!({"row_format": row_supported(ty), "decoded_as": hydrate(ty).name(), "alphabet": a, "columns": space.describe()}));
         let c = space.count();
         sjobs.push(SJob { ty: ty.clone(), al, space, start: stotal });
